@@ -225,8 +225,7 @@ theorem styleAttrs_notKeyword (c : RenderCtx) (j : Nat) : ∀ kv ∈ styleAttrs 
       rcases h with rfl | rfl <;> simp
     · rw [if_neg hc] at h
       simp only [List.mem_cons, List.not_mem_nil, or_false] at h
-      subst h
-      simp
+      rcases h with rfl | rfl <;> simp
 
 /-- a bracketed attribute list whose keys are not keywords -/
 theorem parseAttrList_attrs (as : List (String × String)) (hk : ∀ kv ∈ as, isKeyword kv.1.toList = false)
